@@ -92,11 +92,14 @@ func runC15(c *Ctx) {
 	keyArg := func(fn *ssa.Function, callee string, argIdx int) (*Term, ssa.Instruction) {
 		var t *Term
 		var at ssa.Instruction
-		eachInstr(fn, func(in ssa.Instruction) {
-			if cc := callCommon(in); cc != nil && cc.StaticCallee() != nil && cc.StaticCallee().Name() == callee {
-				t, at = p.TermOf(cc.Args[argIdx]), in
+		// the store call may sit in a helper of the log store, the key may be built by one (`logKey(index)`)
+		rg := p.RegionOf(fn, 2)
+		for _, ri := range rg.Calls(func(cc *ssa.CallCommon) bool { return cc.StaticCallee() != nil && cc.StaticCallee().Name() == callee }) {
+			t, at = p.XLocal(rg.Term(ri.site, callCommon(ri.in).Args[argIdx]), fn), ri.in
+			if alts := t.Alts(); len(alts) == 1 {
+				t = alts[0]
 			}
-		})
+		}
 		return t, at
 	}
 	if t, at := keyArg(m("GetLog"), "GetBytesCF", 3); t != nil {
@@ -118,24 +121,30 @@ func runC15(c *Ctx) {
 	// StoreLogs
 	{
 		fn := m("StoreLogs")
-		var put, write []ssa.Instruction
-		eachInstr(fn, func(in ssa.Instruction) {
+		var put, write []regionInstr
+		rg := p.RegionOf(fn, 2) // the loop body may be a helper (`addToBatch(batch, log)`)
+		rg.Instrs(func(site regionSite, in ssa.Instruction) {
 			if cc := callCommon(in); cc != nil && cc.StaticCallee() != nil {
 				switch cc.StaticCallee().Name() {
 				case "PutCF":
-					put = append(put, in)
+					put = append(put, regionInstr{site, in})
 				case "Write":
-					write = append(write, in)
+					if cc.StaticCallee().Pkg != nil && strings.HasSuffix(cc.StaticCallee().Pkg.Pkg.Path(), "/rocksdb") {
+						write = append(write, regionInstr{site, in})
+					}
 				}
 			}
 		})
 		var why []string
-		if len(put) != 1 || !inCycle(put[0].Block()) {
+		if len(put) != 1 || !rg.InCycle(put[0]) {
 			why = append(why, fmt.Sprintf("%d put sites (expected one inside the loop over the entries)", len(put)))
 		} else {
-			cc := callCommon(put[0])
-			k, v := p.TermOf(cc.Args[2]), p.TermOf(cc.Args[3])
-			isElem := func(t *Term) bool { return t.Op == "index" && t.Args[0].IsParam(fn, 1) }
+			cc := callCommon(put[0].in)
+			k, v := p.XLocal(rg.Term(put[0].site, cc.Args[2]), fn), p.XLocal(rg.Term(put[0].site, cc.Args[3]), fn)
+			if alts := k.Alts(); len(alts) == 1 {
+				k = alts[0]
+			}
+			isElem := func(t *Term) bool { t = t.Strip(); return t.Op == "index" && t.Args[0].IsParam(fn, 1) }
 			if !(isBE(k, func(t *Term) bool { return t.IsField("Index", isElem) })) {
 				why = append(why, "key is "+k.String()+", expected BE64(entry.Index)")
 			}
@@ -144,7 +153,7 @@ func runC15(c *Ctx) {
 			}) {
 				why = append(why, "value is "+v.String()+", expected the encoding of the same entry")
 			}
-			cs := p.CondsAt(put[0].Block())
+			cs := rg.Conds(put[0])
 			for _, kc := range cs {
 				if kc.Atom.Op == "LT" && kc.Atom.Args[1].Op == "builtin" && kc.Atom.Args[1].Name == "len" {
 					continue
@@ -155,7 +164,7 @@ func runC15(c *Ctx) {
 				why = append(why, "entries are put only under "+kc.String())
 			}
 		}
-		if len(write) != 1 || (len(write) == 1 && inCycle(write[0].Block())) {
+		if len(write) != 1 || (len(write) == 1 && rg.InCycle(write[0])) {
 			why = append(why, fmt.Sprintf("%d batch writes (expected exactly one after the loop)", len(write)))
 		}
 		c.Check(len(why) == 0, "R4", "StoreLogs", fn.Pos(), "every entry put under BE64(index), one write", strings.Join(why, "; "))
@@ -227,7 +236,14 @@ func runC15(c *Ctx) {
 			why = append(why, "no range deletion issued")
 		} else {
 			cc := callCommon(del)
-			b, e := p.TermOf(cc.Args[2]), p.TermOf(cc.Args[3])
+			one := func(t *Term) *Term {
+				t = p.XLocal(t, fn) // the key may be built by a helper of the log store
+				if alts := t.Alts(); len(alts) == 1 {
+					return alts[0]
+				}
+				return t
+			}
+			b, e := one(p.TermOf(cc.Args[2])), one(p.TermOf(cc.Args[3]))
 			if !isBE(b, paramIs(fn, 1)) {
 				why = append(why, "range begins at "+b.String()+", expected BE64(min)")
 			}
